@@ -29,7 +29,7 @@ def run(case):
     denv = dict(els)
     denv.update(T=sd.time(), DT=sd.dt(m), START=sd.starttime(m), F_min=sd.min, F_max=sd.max, F_abs=sd.abs, F_if=sd.If,
                 F_step=sd.step, F_lookup=lambda x: sd.lookup(x, PTS), F_pulse=lambda v, f, i: sd.pulse(m, v, f, i),
-                F_delay=lambda x, d, iv: sd.delay(m, x, d, iv), F_smooth=lambda x, a, iv: sd.smooth(m, x, a, iv), F_sqrt=sd.sqrt)
+                F_delay=lambda x, d, iv: sd.delay(m, x, d, iv), F_smooth=lambda x, a, iv: sd.smooth(m, x, a, iv), F_trend=lambda x, a, iv: sd.trend(m, x, a, iv), F_sqrt=sd.sqrt)
     try:
         for kind, name, spec in case["elements"]:
             if kind == "stock":
@@ -53,6 +53,15 @@ def run(case):
     except Exception as e:
         return None      # the DSL rejects the model: not a test
     bad = compare(case, m, els, start, dt, steps, grid)
+    if not bad and case.get("edit"):
+        # an edit through the modelling API on the model that has just been evaluated: a constant gets a new number
+        nm, newv = case["edit"]
+        els[nm].equation = float(newv)
+        case2 = dict(case, elements=[(k_, n_, (float(newv) if n_ == nm else s_)) for (k_, n_, s_) in case["elements"]])
+        bad = compare(case2, m, els, start, dt, steps, grid)
+        if bad:
+            return "after %s.equation = %r on the evaluated model: %s" % (nm, newv, bad)
+        case = case2
     if bad or not case.get("dt2"):
         return bad
     # second phase: the run spec is changed on the existing model (direct assignment), caches reset, and the model re-run
@@ -113,15 +122,19 @@ def compare(case, m, els, start, dt, steps, grid):
                 if j not in st:
                     st[j] = st[j - 1] + dt * ((val(x_name, j - 1) - st[j - 1]) / a)
             return st[max(k, 0)]
+        def f_trend(x_name, a, iv):
+            # trend = (input - average) / (average * averaging time), average = first-order exponential average of the input
+            avg = f_smooth(x_name, a, iv)
+            return (val(x_name, k) - avg) / (avg * a)
         env = Env(T=t, DT=dt, START=start, F_min=min, F_max=max, F_abs=abs, F_if=lambda c, a, b: a if c else b,
                   F_step=lambda h, s: h if t > s else 0.0, F_lookup=lambda x: lerp(x, PTS),
                   F_pulse=lambda v, f, i: (v / dt) if ((t == f) if i == 0 else ((t - f) >= 0 and abs(((t - f) / i) - round((t - f) / i)) < 1e-9)) else 0.0,
-                  F_delay=f_delay, F_smooth=f_smooth, F_sqrt=lambda x: x ** 0.5)
+                  F_delay=f_delay, F_smooth=f_smooth, F_trend=f_trend, F_sqrt=lambda x: x ** 0.5)
         return eval(expr.replace("F_delay(", "F_delay(_n(").replace("F_smooth(", "F_smooth(_n("), {"__builtins__": {}, "_n": None}, env) if False else eval(_quote(expr), {"__builtins__": {}}, env)
     def _quote(expr):
         # delay / smooth take the NAME of their input element in the reference
         import re
-        return re.sub(r"F_(delay|smooth)\((\w+)", lambda mo: "F_%s('%s'" % (mo.group(1), mo.group(2)), expr)
+        return re.sub(r"F_(delay|smooth|trend)\((\w+)", lambda mo: "F_%s('%s'" % (mo.group(1), mo.group(2)), expr)
     try:
         want = {name: [val(name, k) for k in range(len(grid))] for _, name, _ in case["elements"]}
     except (ZeroDivisionError, OverflowError, ValueError, TypeError, RecursionError):
@@ -139,7 +152,7 @@ def compare(case, m, els, start, dt, steps, grid):
                 return "%s(%r) = %r, explicit Euler gives %r" % (name, t, g, w)
     return None
 
-case = {'start': 1.0, 'dt': 1.0, 'steps': 8, 'elements': [('constant', 'c1', 0.5), ('constant', 'c2', 1.0), ('converter', 'v0', '(F_min(2.0, (-1.5)) + F_lookup((-1.5)))'), ('biflow', 'f0', '(c1 * T)'), ('biflow', 'f1', 'v0'), ('stock', 's0', (-3.0, ['f0', 'f1'], [], '(DT + T)')), ('stock', 's1', (-3.0, ['f0', 'f1'], [], 'F_delay(v0, 2.0, (-1.0))'))], 'dt2': None}
+case = {'start': 0.0, 'dt': 0.5, 'steps': 4, 'elements': [('constant', 'c1', -2.0), ('constant', 'c2', 1.0), ('converter', 'v0', 'F_lookup(((c1 * c1) + (0.5 - c1)))'), ('converter', 'v1', 'c1'), ('flow', 'f0', 'F_step(c1, 2.5)'), ('biflow', 'f1', 'v1'), ('stock', 's0', (-3.0, ['f1'], [], None)), ('stock', 's1', (-3.0, [], ['f1'], None))], 'dt2': 0.25, 'edit': ('c1', 0.25)}
 bad = run(case)
 print("model:", case)
 print("FAIL: " + bad if bad else "PASS")
